@@ -268,6 +268,55 @@ def task_deadline(replay=None):
                              replay)
 
 
+def _task_timeout_class_kernel(now, entered, start, tto, mto):
+    """The Task (with Catch States.ALL -> N) is dispatched at `now`; its request then times out (the dispatcher's
+    timeout callback answers States.Timeout).  Which deadline the handler blames decides whether the Catch applies."""
+    state = {"Type": "Task", "Resource": "arn:aws:rpcmessage:local::function:f", "Next": "N", "TimeoutSeconds": tto,
+             "Catch": [{"ErrorEquals": ["States.ALL"], "Next": "N"}]}
+    asl = {"StartAt": "T", "TimeoutSeconds": mto, "States": {"T": state, "N": {"Type": "Succeed"}}}
+    env = _SymEnv(now, {"ENTERED": entered, "START": start})
+    try:
+        eng, log = stubs.make_engine(asl, "EXPRESS")
+        se.time = type("T", (), {"time": staticmethod(lambda: now)})
+        se.datetime = type("D", (), {"now": staticmethod(lambda tz=None: _Stamp(now)), "fromtimestamp": staticmethod(lambda x, tz=None: _Stamp(x))})
+        eng.broadcast_notification = lambda arn, detail, ctx: log.append(("broadcast", detail["stateMachineArn"] + "." + detail["status"], {"detail": dict(detail)}))
+        ev = stubs.running_event("T", {"x": 1}, "EXPRESS", entered="ENTERED", start="START")
+        eng.notify(ev, "id1")
+        calls = eng.task_dispatcher.calls
+        if len(calls) != 1:
+            return False, "calls=%d" % len(calls)
+        callback = calls[0][2]
+        callback({"errorType": "States.Timeout", "errorMessage": "timed out"})
+        pubs = [l for l in log if l[0] == "publish"]
+        bcs = [l for l in log if l[0] == "broadcast"]
+        caught = len(pubs) == 1 and not bcs and pubs[0][1]["context"]["State"]["Name"] == "N"
+        failed = (not pubs and len(bcs) == 1 and bcs[0][2]["detail"]["status"] == "FAILED"
+                  and bcs[0][2]["detail"].get("error") == "States.Timeout")
+        if not (caught or failed):
+            return False, "outcome"
+        task_deadline = entered + tto
+        exec_deadline = start + mto
+        if caught:
+            # a Catch may intercept only a Task time-out: not when the execution deadline is strictly the earlier one,
+            # and not when the execution had already run longer than the machine's TimeoutSeconds when the Task was dispatched
+            ok = P.and_(P.not_(P.lt(exec_deadline, task_deadline)), P.not_(P.gt(now, exec_deadline)))
+            return ok, "caught"
+        # uncatchable: not when the Task deadline is strictly first and the execution deadline still ahead
+        ok = P.not_(P.and_(P.lt(task_deadline, exec_deadline), P.lt(now, exec_deadline)))
+        return ok, "uncatchable"
+    finally:
+        env.restore()
+
+
+@condition(kind="symnum", timeout=120, functions=["StateEngine.notify > asl_state_Task_delegate > on_response (Task vs execution time-out classification)", "handle_error (unrecoverable States.ExecutionTimeout)", "end_execution"],
+           outside=["the tie task deadline == execution deadline and a Task dispatched exactly at the execution deadline (both readings defensible)"])
+def task_timeout_class(replay=None):
+    spec = {"now": "real", "entered": "real", "start": "real", "tto": "int", "mto": "int"}
+    return symnum.run_kernel(_task_timeout_class_kernel, spec,
+                             lambda now, entered, start, tto, mto: [P.ge(start, 0), P.ge(entered, start), P.ge(now, entered), P.ge(tto, 1), P.ge(mto, 1)],
+                             replay)
+
+
 # ---------------------------------------------------------------------------
 # Whole-run timing on the virtual clock (S2)
 # ---------------------------------------------------------------------------
@@ -310,3 +359,122 @@ def timing_run(slow: int, mi: int, catch: bool, c0: int, c1: int, c2: int) -> st
     ensures: _ == ""
     """
     return _timing({"C08", "C02", "C03"}, slow, stubs.pick([3, 5, 7, 20], mi), catch, c0, c1, c2)
+
+
+@condition(timeout={"quick": 240, "thorough": 600}, functions=scn.ENGINE_FUNCS + ["TaskDispatcher.timeout_callback", "asl_state_Wait.on_timeout"])
+def timing_run_catch_to_end(slow: int, mi: int, c0: int, c1: int, c2: int) -> str:
+    """
+    requires: 0 <= slow < 2 and 0 <= mi < 3
+    ensures: _ == ""
+    """
+    # as timing_run with a Catch whose target ends the execution at once (Pass, End): an intercepted time-out then shows
+    # as SUCCEEDED instead of being masked by the time-out of a following Wait.  Ties (mto == 5) are left out.
+    from vf import s2, sim
+    mto = stubs.pick([3, 7, 20], mi)
+    t = scn.task("f", TimeoutSeconds=5, ResultPath="$.t", Next="Z",
+                 Catch=[{"ErrorEquals": ["States.ALL"], "ResultPath": "$.err", "Next": "Z"}])
+    asl = {"StartAt": "T", "TimeoutSeconds": mto, "States": {"T": t, "Z": {"Type": "Pass", "End": True}}}
+    workers = {"f": (lambda req: None) if slow else (lambda req: {"ok": 1})}
+
+    def chk(run, inst, mon):
+        ts = sim.terminals()
+        if len(ts) != 1:
+            return "terminals %d" % len(ts)
+        d = ts[0]
+        dur = (d["stopDate"] - d["startDate"]) / 1000.0
+        if not slow:
+            want = ("SUCCEEDED", 0.0)
+        elif mto < 5:
+            want = ("FAILED", float(mto))
+        else:
+            want = ("SUCCEEDED", 5.0)
+        if (d["status"], dur) != want:
+            return "C08 terminal %s after %.3fs, expected %s after %.3fs" % (d["status"], dur, want[0], want[1])
+        if d["status"] == "FAILED" and d.get("error") != "States.Timeout":
+            return "C08 error %r, expected States.Timeout" % (d.get("error"),)
+        return ""
+    return s2.run_scenario(asl, {"x": 1}, [c0, c1, c2], workers, {"C08", "C02", "C03"}, "STANDARD", None, extra_check=chk, ttl=500)
+
+
+# ---------------------------------------------------------------------------
+# Late / redelivered Wait and Task events (engine restart on the virtual clock)
+# ---------------------------------------------------------------------------
+def _redelivery(kind, delay, k, picks):
+    """kind 0: Wait 3 s -> Pass(End); kind 1: Task f with TimeoutSeconds 5 whose worker never replies.
+    Before scheduling step k the engine dies, `delay` seconds pass, and it is restarted with the same instance id
+    (the broker redelivers what was unacknowledged).  The Wait must complete at max(target, restart instant) and
+    never before its target; the Task must fail with States.Timeout at max(entry + 5, restart instant)."""
+    import copy
+    from vf import sim
+    if kind == 0:
+        asl = {"StartAt": "W", "States": {"W": {"Type": "Wait", "Seconds": 3, "Next": "Z"}, "Z": {"Type": "Pass", "End": True}}}
+        first, span = "W", 3.0
+    else:
+        asl = {"StartAt": "T", "States": {"T": scn.task("f", TimeoutSeconds=5, End=True)}}
+        first, span = "T", 5.0
+    sim.reset()
+    dur = sim.Durable()
+    arn = dur.add_machine(asl)
+    inst = sim.Instance(dur)
+    run = sim.Run(picks, {"f": lambda req: None}, max_steps=60)
+    run.instances = [inst]
+    t0 = stubs.CLOCK.now
+    inst.ed.publish(sim.start_event({"x": 1}, arn, name="e1"), use_shared_queue=True)
+    entered = [None]
+    crashed = False
+    while run.steps < run.max_steps:
+        if not crashed and run.steps == k:
+            crashed = True
+            # was the first state already entered (its event exists in the broker) when the engine died?
+            b = sim.BROKER
+            msgs = [m for q in b.queues.values() for m in q] + [v[1] for v in b.unacked.values()]
+            for m in msgs:
+                try:
+                    doc = stubs.FastJson.loads(m.body if isinstance(m.body, str) else m.body.decode("utf8"))
+                    if doc["context"]["State"]["Name"] == first:
+                        entered[0] = t0
+                except Exception:
+                    pass
+            if sim.terminals():
+                entered[0] = "done"
+            run.instances[0].kill()
+            stubs.CLOCK.now += delay
+            run.instances = [sim.Instance(dur)]
+        if not run.step(None):
+            break
+    else:
+        raise sim.BoundTooSmall("run exceeded %d steps" % run.max_steps)
+    if not crashed:
+        entered[0] = t0
+    ts = sim.terminals()
+    if not ts:
+        return "C08 no terminal notification: the %s never %s after the restart" % ("Wait", "completed") if kind == 0 else "C08 no terminal notification: the redelivered Task never timed out"
+    if entered[0] == "done":
+        return ""
+    restart = t0 + (delay if crashed else 0)
+    ent = entered[0] if entered[0] is not None else restart
+    want_stop = max(ent + span, restart)
+    for d in ts:
+        stop = d["stopDate"] / 1000.0
+        if kind == 0:
+            if d["status"] != "SUCCEEDED":
+                return "C08 Wait run ended %s %s" % (d["status"], d.get("error"))
+            if stop < ent + span:
+                return "C08 Wait completed %.3fs after entry, before its target (3 s)" % (stop - ent)
+        else:
+            if d["status"] != "FAILED" or d.get("error") != "States.Timeout":
+                return "C08 Task run ended %s %s, expected FAILED States.Timeout" % (d["status"], d.get("error"))
+        if stop != want_stop:
+            return "C08 terminal at +%.3fs, expected +%.3fs (entered +%.3fs, restarted +%.3fs)" % (stop - t0, want_stop - t0, ent - t0, restart - t0)
+    return ""
+
+
+@condition(timeout={"quick": 240, "thorough": 600}, functions=scn.ENGINE_FUNCS + ["notify(redelivered=True)", "TaskDispatcher.execute_task (redelivered)", "asl_state_Wait (late / redelivered event)"],
+           bounds={"quick": {"K": 5}, "thorough": {"K": 5}})
+def redelivery_timing(kind: int, di: int, k: int, c0: int, c1: int) -> str:
+    """
+    requires: 0 <= kind < 2 and 0 <= di < 4 and 0 <= k <= @K@
+    ensures: _ == ""
+    """
+    kind = stubs.cint(kind, 0, 1); k = stubs.cint(k, 0, 5)
+    return _redelivery(kind, stubs.pick([0.0, 1.0, 4.0, 7.0], di), k, [c0, c1, 0, 0, 0, 0])
